@@ -168,7 +168,8 @@ def capsule_capsule(
   det = ma * mc - mb * mb
 
   # non-parallel axes: 1 contact
-  if wp.abs(det) >= MJ_MINVAL:
+  # det = ma * mc * sin(angle)^2 carries a round-off error of order eps * ma * mc: use a relative threshold
+  if wp.abs(det) >= wp.max(MJ_MINVAL, 1.0e-6 * ma * mc):
     inv_det = 1.0 / det
     x1 = (mc * u - mb * v) * inv_det
     x2 = (ma * v - mb * u) * inv_det
